@@ -182,7 +182,10 @@ fn run_set<S: PS>(ctx: &Ctx) -> Acc {
     };
     #[derive(Clone)]
     struct Cand { w: u64, zmax: i64, m: Vec<u8>, rnd: [u8; 32], xi: [u8; 32] }
+    drop(kb);
     let found = par_map(shards, |sh| {
+        // each worker builds its own key objects: key types need not be Sync
+        let Ok(kb) = KeyBundle::<S>::new(xi) else { return (Vec::new(), Vec::new(), 0u64, 1u64, Vec::new()) };
         let mut g = Prng::derive(ctx.seed, &format!("c01-scan-{}", p.name), sh as u64);
         let mut best_w: Vec<Cand> = Vec::new();
         let mut best_z: Vec<Cand> = Vec::new();
